@@ -84,9 +84,10 @@ def generate(rng, tier):
             if rng.random() < 0.2:
                 idx = [rng.randrange(-nrow, nrow) for _ in range(m)]
         case["idx"] = idx
-        case["form"] = rng.choice(["list", "ndarray", "vector"])
+        case["form"] = rng.choice(["list", "ndarray", "vector", "tuple", "ndarray_int32", "np_scalars", "range"])
     elif op in ("head", "tail", "sample"):
         case["n"] = rng.choice([0, 1, max(0, nrow - 1), nrow, nrow + 3, None, rng.randint(0, nrow + 1)])
+        case["ntype"] = rng.choice(["int", "int", "np.int64", "np.int32"])
     elif op == "drop_na":
         k = rng.randint(0, len(cols))
         case["cols"] = rng.sample(cols, k)
@@ -150,6 +151,12 @@ def execute(case):
                 kw = {}
                 for name, kind, v in pairs:
                     val = _to_np_value(kind, v)
+                    if v is not None and nrow and len(repr(v)) % 3 == 0:
+                        # the value as a scalar of the column's own NumPy dtype (np.str_, np.bool_, np.float32, ...), as when it is taken from a column
+                        pos = [i for i, c in enumerate(pre[name]) if c == canon.canon_obj(v, string_na=kind in ("str", "lstr", "ustr"))]
+                        if pos:
+                            val = np.asarray(dict.__getitem__(df, name))[pos[0]]
+                            res.cls("filter:value-as-numpy-scalar")
                     kw[name] = val
                     raw = np.asarray(dict.__getitem__(df, name)).view(np.ndarray)
                     with np.errstate(all="ignore"):
@@ -182,7 +189,12 @@ def execute(case):
             idx = list(case["idx"])
             if form == "ndarray": arg = np.array(idx, dtype=int)
             elif form == "vector": arg = di.Vector(idx, int) if idx else di.Vector([], int)
+            elif form == "tuple": arg = tuple(idx)
+            elif form == "ndarray_int32": arg = np.array(idx, dtype=np.int32)
+            elif form == "np_scalars": arg = [np.int64(i) for i in idx]
+            elif form == "range" and idx and idx == list(range(idx[0], idx[-1] + 1)): arg = range(idx[0], idx[-1] + 1)
             else: arg = idx
+            res.cls(f"rows-as:{type(arg).__name__}")
             out = getattr(df, op)(rows=arg)
             if any(i < 0 for i in idx): res.cls("slice:negative-positions")
             if op == "slice":
@@ -192,6 +204,9 @@ def execute(case):
                 expected = [i for i in range(nrow) if i not in drop]
         elif op in ("head", "tail"):
             n = case["n"]
+            if n is not None and case.get("ntype", "int") != "int":
+                n = {"np.int64": np.int64, "np.int32": np.int32}[case["ntype"]](n)      # a count taken from another array is a NumPy scalar
+                res.cls("n-as-numpy-scalar")
             out = getattr(df, op)(n) if n is not None else getattr(df, op)()
             k = min(nrow, di.DEFAULT_PEEK_ROWS if n is None else n)
             expected = list(range(k)) if op == "head" else list(range(nrow - k, nrow))
